@@ -9,6 +9,7 @@ CONSTANTS
   MaxLen = 4
   MaxText = 6
   Rtl = 1
+  NFeat = 2
   Ops <- OpsAll
   Emit = TRUE
 INVARIANTS TypeOK StreamOK EmitDone
